@@ -606,3 +606,19 @@ Definition show_facts_c (text : string) : string :=
       (if forest_no_empty_container text forest then "N" else "n")
   | _ => "-"
   end.
+
+(* both dumps from ONE evaluation of the parser: "<show_program_c> @@ <show_facts_c>" *)
+Definition show_all_c (text : string) : string :=
+  match parse_program_c text with
+  | PCOk forest p =>
+      let tc := forest_comments text forest in
+      let pc := program_comments p in
+      "OK " +++ PegToItems.sjoin " ;; " (map show_stmt_c p) +++ " @@ " +++
+      hexlist tc +++ " ## " +++ hexlist pc +++ " ## " +++
+      (if forest_shape_ok text forest then "S" else "s") +++
+      (if forest_no_empty_container text forest then "N" else "n")
+  | PCGlueErr => "GLUEERR"
+  | PCReject => "REJECT"
+  | PCPanic => "PANIC"
+  | PCFuel => "FUEL"
+  end.
